@@ -59,6 +59,20 @@ CLAIMS = {
     ),
 }
 
+CLAIMS["C10"] = dict(
+    technique="symbolic evaluation of macro-expanded operator impls; sibling (by-value vs assigning) normal-form equality; reference formulas; forwarding-shape lint",
+    category="other",
+    text=("For all inputs and every implementing type at once (≈650 instances): each by-value/assigning pair (Mix, Lighten, Saturate, ShiftHue, "
+          "WithHue/SetHue, Clamp, Add/Sub/Mul/Div) on the same type must leave *self equal to the by-value result as exact rational normal "
+          "forms; mix must equal a+(b-a)·clamp(f,0,1) with the hue along normalize_signed(b.h-a.h) and reduce to a / b at and beyond the "
+          "ends; lighten/saturate must equal clamp(c+max(0,(f>=0?max-c:c))·f,min,max) (fixed: clamp(c+max·amount)) with the limits taken "
+          "from the type's accessors and every other component untouched; HWB moves whiteness and blackness in opposite directions; "
+          "blanket Darken/Desaturate negate the argument; Alpha and slice forms forward to the same-named operator with the same argument "
+          "and keep alpha; colour-scheme helpers use the documented shifts; arithmetic impls apply the trait's operator to every component. "
+          "Does not decide monotonicity or boundedness under rounding."),
+    design_ref="DESIGN.md §3 C10",
+)
+
 NOT_YET = "check under construction (see DESIGN.md §7 build order); will be claimed when its rule is armed"
 NA = {}
 
